@@ -4,6 +4,7 @@ pub mod c09;
 pub mod c10;
 pub mod c11;
 pub mod c13;
+pub mod c14;
 pub mod c15;
 pub mod c16;
 pub mod families;
@@ -24,6 +25,7 @@ pub fn run(id: &str, tier: &str, seed: u64) -> i32 {
         "C10" => c10::run(&mut r),
         "C11" => c11::run(&mut r),
         "C13" => c13::run(&mut r),
+        "C14" => c14::run(&mut r),
         "C15" => c15::run(&mut r),
         "C16" => c16::run(&mut r),
         _ => {
